@@ -49,8 +49,14 @@ type solver struct {
 	nextID   int
 	log      io.Writer
 
+	aux       func() (bv []*Term, str []*Term) // auxiliary terms whose model values are read with every model
+	strFuncs  map[string]int                   // string-function UFs declared on this path -> result width
 	scopes    [][]*Term // terms named inside nested scopes (dropped on popScope)
 	scopeDecl [][]string
+
+	trace     []string
+	pending   int    // commands sent whose acknowledgement has not been read yet
+	broken    string // first error reported by the solver for a non-query command (sticky until resetPath)
 
 	Queries   int
 	Time      time.Duration
@@ -100,6 +106,12 @@ func (s *solver) start() error {
 	s.names = make(map[*Term]string)
 	s.declared = make(map[string]bool)
 	s.strlits = make(map[string]string)
+	s.strFuncs = make(map[string]int)
+	// every command is acknowledged ("success" or an error): the reader counts
+	// acknowledgements, so an error in any command is seen and attributed, and
+	// the exchange can never get out of step
+	io.WriteString(s.in, "(set-option :print-success true)\n")
+	s.pending = 1
 	if strings.Contains(s.argv[0], "z3") {
 		s.send(fmt.Sprintf("(set-option :timeout %d)", s.timeoutMS))
 	}
@@ -118,12 +130,64 @@ func (s *solver) close() {
 	}
 }
 
+var debugTrace = os.Getenv("VERIF_DEBUG") != ""
+
 func (s *solver) send(line string) {
+	if debugTrace {
+		s.trace = append(s.trace, line)
+	}
 	if s.log != nil {
 		fmt.Fprintln(s.log, line)
 	}
 	io.WriteString(s.in, line)
 	io.WriteString(s.in, "\n")
+	s.pending++
+}
+
+// query sends a command whose answer is a result (check-sat, get-value), after
+// reading the acknowledgements of everything sent before it.
+func (s *solver) query(line string) {
+	if debugTrace {
+		s.trace = append(s.trace, line)
+	}
+	s.drain()
+	if s.log != nil {
+		fmt.Fprintln(s.log, line)
+	}
+	io.WriteString(s.in, line)
+	io.WriteString(s.in, "\n")
+}
+
+// drain reads one acknowledgement per pending command.
+func (s *solver) drain() {
+	for s.pending > 0 {
+		l := s.readLine()
+		if l == "" {
+			continue
+		}
+		s.pending--
+		if l == "success" {
+			continue
+		}
+		if strings.HasPrefix(l, "(error") {
+			// multi-line errors: read until parentheses balance
+			depth := strings.Count(l, "(") - strings.Count(l, ")")
+			for depth > 0 {
+				m := s.readLine()
+				l += " " + m
+				depth += strings.Count(m, "(") - strings.Count(m, ")")
+			}
+			if s.broken == "" {
+				s.broken = l
+			}
+			s.lastErr = l
+			continue
+		}
+		// unexpected text: treat as an error
+		if s.broken == "" {
+			s.broken = "unexpected solver output: " + l
+		}
+	}
 }
 
 // readLine reads one line of solver output.
@@ -144,9 +208,13 @@ func (s *solver) readLine() string {
 func (s *solver) resetPath() {
 	s.send("(pop 1)")
 	s.send("(push 1)")
+	s.drain()
+	s.broken = ""
+	s.trace = s.trace[:0]
 	s.names = make(map[*Term]string)
 	s.declared = make(map[string]bool)
 	s.strlits = make(map[string]string)
+	s.strFuncs = make(map[string]int)
 	s.scopes = nil
 	s.scopeDecl = nil
 	s.nextID = 0
@@ -168,6 +236,7 @@ func (s *solver) popScope() {
 	for _, d := range s.scopeDecl[n] {
 		delete(s.declared, d)
 		delete(s.strlits, d)
+		delete(s.strFuncs, d)
 	}
 	s.scopes = s.scopes[:n]
 	s.scopeDecl = s.scopeDecl[:n]
@@ -213,6 +282,9 @@ func (s *solver) define(t *Term) string {
 			}
 			s.strlits[t.name] = n
 			s.noteDecl(t.name)
+			for f, w := range s.strFuncs {
+				s.litAxiom(f, w, t.name, n)
+			}
 		}
 		s.names[t] = n
 		s.noteName(t)
@@ -260,6 +332,12 @@ func (s *solver) define(t *Term) string {
 				sb.WriteString(sortName(w))
 			}
 			s.send(fmt.Sprintf("(declare-fun %s (%s) %s)", x.name, sb.String(), sortName(x.w)))
+			if isStrFunc(x.name) && len(x.argw) == 1 && x.argw[0] == wStr {
+				s.strFuncs[x.name] = x.w
+				for lit, n := range s.strlits {
+					s.litAxiom(x.name, x.w, lit, n)
+				}
+			}
 		}
 		var sb strings.Builder
 		x.write(&sb, func(c *Term) (string, bool) {
@@ -276,6 +354,16 @@ func (s *solver) define(t *Term) string {
 		s.noteName(x)
 	}
 	return s.names[t]
+}
+
+// litAxiom fixes the value of a string function on a literal to the natively
+// computed one.
+func (s *solver) litAxiom(f string, w int, lit, litName string) {
+	v, _, ok := litFuncValue(f, lit)
+	if !ok {
+		return
+	}
+	s.send(fmt.Sprintf("(assert (= (%s %s) %s))", f, litName, constSMT(w, v)))
 }
 
 // assert adds t to the path frame permanently (until resetPath).
@@ -342,13 +430,27 @@ func (s *solver) check(extra *Term, vars []*Term, wantModel bool) (satResult, *m
 		for _, v := range vars {
 			s.define(v)
 		}
+		if s.aux != nil {
+			// name auxiliary terms outside the query frame (names made inside it would be popped)
+			a, b := s.aux()
+			for _, t := range a {
+				s.define(t)
+			}
+			for _, t := range b {
+				s.define(t)
+			}
+		}
 	}
 	s.send("(push 1)")
 	if extra != nil {
 		s.send("(assert " + name + ")")
 	}
-	s.send("(check-sat)")
+	s.query("(check-sat)")
 	r := s.readResult()
+	if s.broken != "" {
+		s.lastErr = s.broken
+		r = resUnknown
+	}
 	var m *model
 	if r == resSat && wantModel {
 		m = s.getModel(vars)
@@ -382,7 +484,7 @@ func (s *solver) getModel(vars []*Term) *model {
 			sb.WriteByte(' ')
 		}
 		sb.WriteString("))")
-		s.send(sb.String())
+		s.query(sb.String())
 		txt := s.readSexp()
 		if strings.HasPrefix(txt, "(error") {
 			s.lastErr = txt
@@ -393,7 +495,28 @@ func (s *solver) getModel(vars []*Term) *model {
 			return nil
 		}
 	}
-	if !s.strModel(vars, m) {
+	var auxBV, auxStr []*Term
+	if s.aux != nil {
+		auxBV, auxStr = s.aux()
+	}
+	for _, t := range auxBV {
+		if t.isConst() {
+			m.tv[t] = t.k
+			continue
+		}
+		n := s.define(t)
+		s.query("(get-value (" + n + "))")
+		txt := s.readSexp()
+		one := map[string]uint64{}
+		if !parseValues(txt, one) {
+			s.lastErr = "cannot parse get-value answer: " + txt
+			return nil
+		}
+		for _, v := range one {
+			m.tv[t] = v
+		}
+	}
+	if !s.strModel(vars, auxStr, m) {
 		return nil
 	}
 	return m
@@ -530,8 +653,12 @@ func (s *solver) getValues(extra *Term, terms []*Term) (satResult, []uint64) {
 	if extra != nil {
 		s.send("(assert " + en + ")")
 	}
-	s.send("(check-sat)")
+	s.query("(check-sat)")
 	r := s.readResult()
+	if s.broken != "" {
+		s.lastErr = s.broken
+		r = resUnknown
+	}
 	var vals []uint64
 	if r == resSat {
 		vals = make([]uint64, len(terms))
@@ -540,7 +667,7 @@ func (s *solver) getValues(extra *Term, terms []*Term) (satResult, []uint64) {
 				vals[i] = terms[i].k
 				continue
 			}
-			s.send("(get-value (" + n + "))")
+			s.query("(get-value (" + n + "))")
 			txt := s.readSexp()
 			m := map[string]uint64{}
 			if !parseValues(txt, m) {
@@ -561,20 +688,32 @@ func (s *solver) getValues(extra *Term, terms []*Term) (satResult, []uint64) {
 // of each input is compared with the abstract values of the interned
 // literals; an input equal to a literal gets that literal, any other gets a
 // fresh string (equal abstract values get equal fresh strings).
-func (s *solver) strModel(vars []*Term, m *model) bool {
+func (s *solver) strModel(vars []*Term, aux []*Term, m *model) bool {
 	var sv []*Term
+	seen := map[*Term]bool{}
 	for _, v := range vars {
-		if v.w == wStr {
+		if v.w == wStr && !seen[v] {
 			sv = append(sv, v)
+			seen[v] = true
+		}
+	}
+	for _, v := range aux {
+		if v.w == wStr && !seen[v] && v.op != OpStrLit {
+			sv = append(sv, v)
+			seen[v] = true
 		}
 	}
 	if len(sv) == 0 {
 		return true
 	}
+	names := make([]string, len(sv))
+	for j, v := range sv {
+		names[j] = s.define(v)
+	}
 	var sb strings.Builder
 	sb.WriteString("(get-value (")
-	for _, v := range sv {
-		sb.WriteString(s.define(v))
+	for _, n := range names {
+		sb.WriteString(n)
 		sb.WriteByte(' ')
 	}
 	var lits []string
@@ -584,7 +723,7 @@ func (s *solver) strModel(vars []*Term, m *model) bool {
 		sb.WriteByte(' ')
 	}
 	sb.WriteString("))")
-	s.send(sb.String())
+	s.query(sb.String())
 	txt := s.readSexp()
 	toks := tokenize(txt)
 	// ((name val) ...), val is a single token such as Str!val!0
@@ -600,12 +739,15 @@ func (s *solver) strModel(vars []*Term, m *model) bool {
 	for _, lit := range lits {
 		byAbs[vals[s.strlits[lit]]] = lit
 	}
-	for _, v := range sv {
-		abs := vals[v.name]
+	for j, v := range sv {
+		abs := vals[names[j]]
+		val := "\x00fresh:" + abs
 		if lit, ok := byAbs[abs]; ok {
-			m.str[v.name] = lit
-		} else {
-			m.str[v.name] = "\x00fresh:" + abs
+			val = lit
+		}
+		m.ts[v] = val
+		if v.op == OpVar {
+			m.str[v.name] = val
 		}
 	}
 	return true
